@@ -71,7 +71,7 @@ def serial_rows(idx, method, members=2):
         "ErrorHandler": handler_ctor,
         "eh.handle_error": handle_error,
     }
-    it = Interp(idx, types={"self": "CsvPaths"}, unknown_calls="residual", handlers=handlers,
+    it = Interp(idx, types={"self": "CsvPaths"}, unknown_calls="residual", handlers=handlers, inline_all={"CsvPaths"},
                 domains={"self._skip_all": [False], "self._stop_all": [False], "self._advance_all": [0], "self._fail_all": [False],
                          "self.current_run_time": [Residual("RUNTIME")]})
     args = {"pathsname": "P", "filename": "F"}
@@ -159,7 +159,7 @@ def byline_rows(idx, nlines=3, scenario="plain"):
     }
     out = []
     for agree in (False, True):
-        it = Interp(idx, types={"self": "CsvPaths"}, unknown_calls="residual", handlers=handlers,
+        it = Interp(idx, types={"self": "CsvPaths"}, unknown_calls="residual", handlers=handlers, inline_all={"CsvPaths"},
                     domains={"self._stop_all": [False], "self._fail_all": [False]})
         store = {"cp0.stopped": False, "cp1.stopped": False, "cp0.advance_count": 0, "cp1.advance_count": 0,
                  "self._skip_all": False, "self._advance_all": 0}
